@@ -7,7 +7,7 @@ Local Open Scope N_scope.
     the harness, directed case d0); the repaired code -- the one modelled -- skips the solution. *)
 Definition zero_ifid_segment : segment :=
   mkSeg 1700000000 7 [mkAE 1 2 1400 0 (mkHF 63 0 0 11) []; mkAE 2 0 1400 0 (mkHF 63 0 0 12) []].
-Definition zero_ifid_case : ccase := mkCase 2 1 [] [zero_ifid_segment] [5] false false true [] [] 0 [].
+Definition zero_ifid_case : ccase := mkCase 2 1 [] [zero_ifid_segment] [5] false false true [] [] 0 [] [].
 
 Lemma zero_ifid_solution_is_skipped : model_run zero_ifid_case = Ok [].
 Proof. vm_compute. reflexivity. Qed.
@@ -26,7 +26,7 @@ Definition big_mtu_case : ccase :=
   mkCase 2 3 []
     [mkSeg 1700000000 7 [mkAE 1 2 65536 0 (mkHF 63 0 1 11) []; mkAE 2 0 1500 1400 (mkHF 63 1 0 12) []];
      mkSeg 1700000000 9 [mkAE 1 3 65536 0 (mkHF 63 0 2 13) []; mkAE 3 0 1500 1400 (mkHF 63 1 0 14) []]]
-    [5; 6] true false true [] [] 0 [].
+    [5; 6] true false true [] [] 0 [] [].
 Lemma big_as_mtu_does_not_zero_the_path_mtu :
   option_map (map o_mtu) (match model_run big_mtu_case with Ok l => Some (map obs_path l) | _ => None end) = Some [1400].
 Proof. vm_compute. reflexivity. Qed.
